@@ -139,6 +139,7 @@ def one_history(ctx, index: int, rng: random.Random):
             if method == "fixed_width" and align and vtype is None and rng.random() < 0.25:
                 # range= on the grid, with a datum exactly on its upper limit (which belongs to the range): the adapted bins hold it too
                 ranges = []
+                narrow_range = rng.random() < 0.4  # a range that leaves some of the data below it: adaptive bins hold all the data all the same
                 for ax in range(nd):
                     w_, s_ = widths[ax], shift[ax]
                     k_lo = math.floor((float(init[:, ax].min()) - s_) / w_) - rng.randint(0, 2)
@@ -147,6 +148,8 @@ def one_history(ctx, index: int, rng: random.Random):
                     if not (lo_ <= float(init[:, ax].min()) and float(init[:, ax].max()) <= hi_):
                         ranges = None
                         break
+                    if narrow_range and k_lo + 3 < k_hi:
+                        lo_ = (k_lo + rng.randint(1, 3)) * w_ + s_
                     ranges.append((lo_, hi_))
                 if ranges:
                     r_ = rng.randrange(n0)
